@@ -489,7 +489,7 @@ func genFinite(c *Ctx) {
 	}
 	maxLen := 4
 	if c.Thorough {
-		maxLen = 5 // 13^5 x 4 = 1.5 million histories; length 6 is 19 million and more than the driver can read back
+		maxLen = 5
 	}
 	for _, auto := range []bool{false, true} {
 		for _, n := range []int{2, 3} {
@@ -497,7 +497,12 @@ func genFinite(c *Ctx) {
 				if length == maxLen && n == 3 && !c.Thorough {
 					continue
 				}
-				enumerate(smallAlphabet, length, func(seq []int) {
+				alphabet := smallAlphabet
+				if length > 4 {
+					// 13^5 x 4 histories are 1.5 million and more than the driver reads back: nine letters there
+					alphabet = []int{opPut0, opPut2, opPutWrongID, opRepNewest, opRep1, opRep2, opRepUnknown, opRepFail0, opRepNonCanon}
+				}
+				enumerate(alphabet, length, func(seq []int) {
 					g := &histGen{auto: auto}
 					ops := make([]val.V, len(seq))
 					for i, k := range seq {
